@@ -476,10 +476,11 @@ func (s *syncer) newOutput() (*RedisOutput, error) {
 			s.logger.Errorf("%s", err.Error())
 			return nil, errors.Join(ErrQuit, err)
 		}
-		err = s.updateCheckpoint(wait, localCheckpoint, []string{id1, id2})
+		cpRunId, err := s.updateCheckpoint(wait, localCheckpoint, []string{id1, id2}, !needsBisyncNamespace)
 		if err != nil {
 			return nil, errors.Join(ErrRestart, err)
 		}
+		outputCfg.RunId = cpRunId
 		outputCfg.CheckpointName = localCheckpoint
 		if needsBisyncNamespace {
 			s.logger.Debugf("bisync checkpoint namespace : runid(%s), cpName(%s), redis(%v)", id1, localCheckpoint, s.cfg.Input.Addresses)
@@ -867,20 +868,51 @@ func deleteBisyncKeysInChunks(cli client.Redis, keys []string, chunkSize int) er
 	return errors.Join(errs...)
 }
 
-func (s *syncer) updateCheckpoint(wait usync.WaitCloser, localCheckpoint string, ids []string) error {
-	return util.RetryLinearJitter(wait.Context(), func() error {
+// updateCheckpoint brings the checkpoint's name up to date and returns the run id the checkpoint is stored under.
+// With keepRunId, a checkpoint stored under the previous run id of the source stays there : whether that position
+// can be continued is for the source to decide when it answers PSYNC <previous id>, the checkpoint is re-keyed by
+// RedisOutput.SetRunId afterwards. Re-keyed to the current id beforehand, a position beyond the offset at which
+// the source switched ids would be offered as a position of the current history.
+func (s *syncer) updateCheckpoint(wait usync.WaitCloser, localCheckpoint string, ids []string, keepRunId bool) (runId string, err error) {
+	err = util.RetryLinearJitter(wait.Context(), func() error {
 		cli, err := client.NewRedis(s.cfg.Output)
 		if err != nil {
 			return err
 		}
 		defer cli.Close()
 
-		err = checkpoint.UpdateCheckpoint(cli, localCheckpoint, ids)
+		ordered := ids
+		if keepRunId {
+			ordered, err = checkpointRunIdsHolderFirst(cli, ids)
+			if err != nil {
+				s.logger.Errorf("get checkpoint hash : redis(%s), ids(%v), error(%v)", s.cfg.Output.Address(), ids, err)
+				return err
+			}
+		}
+		runId = ordered[0]
+		err = checkpoint.UpdateCheckpoint(cli, localCheckpoint, ordered)
 		if err != nil {
-			s.logger.Errorf("update checkpoint : redis(%s), local(%s), ids(%v), error(%v)", s.cfg.Output.Address(), localCheckpoint, ids, err)
+			s.logger.Errorf("update checkpoint : redis(%s), local(%s), ids(%v), error(%v)", s.cfg.Output.Address(), localCheckpoint, ordered, err)
 		}
 		return err
 	}, 5, time.Second*1, 0.3)
+	return runId, err
+}
+
+// checkpointRunIdsHolderFirst orders the run ids of the source (current, previous) so that the one the
+// checkpoint is stored under comes first.
+func checkpointRunIdsHolderFirst(cli client.Redis, ids []string) ([]string, error) {
+	if len(ids) < 2 {
+		return ids, nil
+	}
+	_, holder, err := checkpoint.GetCheckpointHash(cli, ids)
+	if err != nil {
+		return nil, err
+	}
+	if holder != "" && holder == ids[1] {
+		return []string{ids[1], ids[0]}, nil
+	}
+	return ids, nil
 }
 
 func choseKeyInSlots(prefix string, slots *config.RedisSlots) string {
